@@ -30,7 +30,7 @@ CLAUSES = {
 }
 OPS = ["select_taxa", "delete_taxa", "insert_taxa", "adjoin_taxa", "concat_taxa", "append_taxa", "incorp_taxa",
        "remove_taxa", "reorder_taxa", "sort_taxa", "group_taxa"]
-HOOKS_REQUIRED = ["op:" + o for o in OPS] + ["recorder:from_numpy", "class:DenseBreedingValueMatrix", "class:DenseEstimatedBreedingValueMatrix",
+HOOKS_REQUIRED = ["op:" + o for o in OPS] + ["copy:shallow copy", "copy:deep copy", "recorder:from_numpy", "class:DenseBreedingValueMatrix", "class:DenseEstimatedBreedingValueMatrix",
                                               "class:DenseGenomicEstimatedBreedingValueMatrix"]
 RULE = ("seeded class-based raw matrices: 1-40 taxa (10%: up to 200), 1-4 traits, every trait column drawn from a named class "
         "(gaussian with sd 1e-3..1e3, offsets up to +-1e9, constant with short / long binary expansion, integer lattice with "
@@ -200,7 +200,7 @@ def guarded_call(ctx, clause, site, icls, coords, fn, witness=None):
         return False, None
 
 
-def check_roundtrip(ctx, obj, R, sts, mags, k, site, coords, clause="C15.roundtrip", tag=""):
+def check_roundtrip(ctx, obj, R, sts, mags, k, site, coords, clause="C15.roundtrip", tag="", roweps=None):
     """Per column: unscale() reproduces raw, NaN stays NaN and nothing else becomes NaN."""
     ok, un = guarded_call(ctx, clause, site_of(type(obj), "unscale"), "any", coords, obj.unscale)
     if not ok:
@@ -212,8 +212,8 @@ def check_roundtrip(ctx, obj, R, sts, mags, k, site, coords, clause="C15.roundtr
         return False
     allok = True
     for j in range(R.shape[1]):
-        kc = O.keyclass(sts[j], mags[j], k) + tag
-        mok, vok, worst, first = O.compare_matrix(un[:, j:j + 1], R[:, j:j + 1], [mags[j]], k)
+        kc = O.keyclass(sts[j], mags[j], k) + tag + (P32(2.0) if roweps is not None and float(numpy.max(roweps)) > O.EPS else "")
+        mok, vok, worst, first = O.compare_matrix(un[:, j:j + 1], R[:, j:j + 1], [mags[j]], k, roweps)
         w = None
         if not (mok and vok):
             i = first[0] if first else 0
@@ -228,7 +228,7 @@ def check_roundtrip(ctx, obj, R, sts, mags, k, site, coords, clause="C15.roundtr
     return allok
 
 
-def check_stored(ctx, obj, R, sts, mags, k, site, coords, derived=False):
+def check_stored(ctx, obj, R, sts, mags, k, site, coords, derived=False, prec=1.0):
     """Stored columns are centred with unit sd; a constant trait is stored as zeros with scale exactly 1.
 
     derived=True: the object is the result of an operation on matrices, i.e. it was standardised from values that the
@@ -245,8 +245,8 @@ def check_stored(ctx, obj, R, sts, mags, k, site, coords, derived=False):
             continue  # mask defect: reported by the round-trip monitor
         if st["const"]:
             v = st["tmax"]
-            icls = "constant column/" + ("value with short binary expansion" if O.short_binary(v) else "value with long binary expansion")
-            noise = 4 * O.EPS * (k + 1) * (abs(v) + 2 * mags[j])
+            icls = "constant column/" + ("value with short binary expansion" if O.short_binary(v) else "value with long binary expansion") + P32(prec)
+            noise = 4 * O.EPS * prec * (k + 1) * (abs(v) + 2 * mags[j])
             cond = sc[j] == 1.0 and all(abs(x) <= noise for x in fin)
             if derived and not cond and 0.0 < sc[j] <= noise:
                 ctx.sumnote("constant trait of a derived matrix carries rounding noise (admissible, not judged)")
@@ -254,7 +254,7 @@ def check_stored(ctx, obj, R, sts, mags, k, site, coords, derived=False):
             ctx.check("C15.roundtrip.stored", cond, site, "constant trait stored as zeros with scale exactly 1", icls,
                       witness={"raw_column": R[:, j], "stored_column": M[:, j], "location": loc[j], "scale": sc[j]}, coords=coords)
             continue
-        tolc = O.REL_STAT * (k + 1) * max(st["mag"], mags[j]) / st["tstd"] + 1e-12
+        tolc = (O.REL_STAT * (k + 1) * max(st["mag"], mags[j]) / st["tstd"] + 1e-12) * prec
         if tolc > 0.25:
             ctx.sumnote("stored-centring not decidable (sd at rounding level)")
             continue
@@ -262,7 +262,7 @@ def check_stored(ctx, obj, R, sts, mags, k, site, coords, derived=False):
         s = math.sqrt(math.fsum((x - m) ** 2 for x in fin) / len(fin))
         ctx.maxnote("stored |mean| or |sd-1| / tol", max(abs(m), abs(s - 1.0)) / tolc)
         ctx.check("C15.roundtrip.stored", abs(m) <= tolc and abs(s - 1.0) <= tolc and sc[j] > 0, site,
-                  "stored column has mean 0 and sd 1", O.keyclass(st, mags[j], k),
+                  "stored column has mean 0 and sd 1", O.keyclass(st, mags[j], k) + P32(prec),
                   witness={"raw_column": R[:, j], "stored_column": M[:, j], "stored_mean": m, "stored_sd": s, "tol": tolc,
                            "location": loc[j], "scale": sc[j]}, coords=coords)
 
@@ -270,14 +270,18 @@ def check_stored(ctx, obj, R, sts, mags, k, site, coords, derived=False):
 INPLACE = "taxa set changed in place"
 
 
-def check_stats(ctx, obj, R, sts, mags, k, coords, tag=""):
+def P32(prec):
+    return "/float32 source" if prec > 1.0 else ""
+
+
+def check_stats(ctx, obj, R, sts, mags, k, coords, tag="", prec=1.0):
     """Every per-trait summary on the original scale equals that summary of the raw values.
 
     Finding keys: for an object as returned by a constructor / non-mutating operation the input class is the class of the
     raw column; for an object whose taxa set was changed in place (append/incorp/remove) it is that state, whatever the
     column (one stale-parameter mechanism must not produce one key per column class)."""
     cls = type(obj); n, t = R.shape
-    kcls = (lambda st, j: INPLACE) if tag else (lambda st, j: O.keyclass(st, mags[j], k))
+    kcls = (lambda st, j: INPLACE + P32(prec)) if tag else (lambda st, j: O.keyclass(st, mags[j], k) + P32(prec))
     stored = numpy.array(obj.mat, dtype=float, copy=True)
     for name in SUMM:
         site = site_of(cls, name)
@@ -297,7 +301,7 @@ def check_stats(ctx, obj, R, sts, mags, k, coords, tag=""):
                 continue
             kc = kcls(st, j)
             if ok:
-                exp = st[name]; tol = O.tol_stat(name, st, mags[j], k); v = float(val[j])
+                exp = st[name]; tol = O.tol_stat(name, st, mags[j], k, prec); v = float(val[j])
                 good = (abs(v - exp) <= tol) or (st["nan"] and v != v)
                 if v == v and good and tol > 0:
                     ctx.maxnote("summary |err|/tol", abs(v - exp) / tol)
@@ -308,7 +312,7 @@ def check_stats(ctx, obj, R, sts, mags, k, coords, tag=""):
             if ok2 and not st["nan"]:
                 sst = O.ref_stats(stored[:, j].tolist())
                 if sst is not None and not sst["nan"]:
-                    smag = sst["mag"]; tol = O.tol_stat(name, sst, smag, 0) + 1e-300; v = float(vst[j])
+                    smag = sst["mag"]; tol = O.tol_stat(name, sst, smag, 0, prec) + 1e-300; v = float(vst[j])
                     ctx.check("C15.stats.stored", abs(v - sst[name]) <= tol, site,
                               "%s(unscale=False) == %s of the stored column" % (name, SUMM_WORD[name]), kc,
                               witness={"stored_column": stored[:, j], "got": v, "expected": sst[name]}, coords=coords)
@@ -332,7 +336,7 @@ def check_stats(ctx, obj, R, sts, mags, k, coords, tag=""):
                 i, inr = -1, False
             good = False
             if inr:
-                x = float(R[i, j]); tol = 4.0 * O.EPS * (k + 1) * (abs(st[ext]) + 2.0 * mags[j])
+                x = float(R[i, j]); tol = 4.0 * O.EPS * prec * (k + 1) * (abs(st[ext]) + 2.0 * mags[j])
                 good = (x != x and st["nan"]) or (x == x and abs(x - st[ext]) <= tol)
             ctx.check("C15.stats.arg", good, site, "%s points at an entry attaining the %s" % (name, SUMM_WORD[ext]), kc,
                       witness={"raw_column": R[:, j], "index": val[j], "extreme": st[ext]}, coords=coords)
@@ -352,7 +356,12 @@ def case_build(ctx, c):
     intdt = g.random() < 0.05
     if intdt:
         R = numpy.round(numpy.clip(numpy.nan_to_num(R, nan=3.0), -1e12, 1e12)); ccs = ["int64-input"] * t
-    wc = worst_class(ccs) if not intdt else "int64-input"
+    f32dt = (not intdt) and g.random() < 0.06
+    roweps = None; prec = 1.0
+    if f32dt:   # from_numpy documents float64 but accepts float32 silently: judged at the precision of the source array
+        R = R.astype("float32").astype("float64"); ccs = [cc + "/float32-input" for cc in ccs]
+        roweps = numpy.full((n, 1), O.EPS32); prec = O.PREC32
+    wc = (worst_class([cc.split("/")[0] for cc in ccs]) + ("/float32-input" if f32dt else "")) if not intdt else "int64-input"
     coords = [c, "build"]
     ctx.case("build:" + wc, R, cls.__name__, trivial=(n == 1 and t == 1))
     ctx.hook("class:" + cls.__name__)
@@ -362,19 +371,19 @@ def case_build(ctx, c):
         ctx.sample({"family": "build", "class": cls.__name__, "column_classes": ccs, "raw": R.tolist() if n <= 12 else R[:12].tolist(),
                     "ntaxa": n})
     site = site_of(cls, "from_numpy")
-    arg = R.astype("int64") if intdt else R.copy()
+    arg = R.astype("int64") if intdt else (R.astype("float32") if f32dt else R.copy())
     lab = labels(range(n)) if g.random() < 0.7 else {}
     ok, obj = guarded_call(ctx, "C15.roundtrip", site, "any", coords,
                            lambda: cls.from_numpy(arg, trait=traits(t), **lab), witness={"raw": R})
     if not ok:
         return
     sts, mags = col_stats(R)
-    check_roundtrip(ctx, obj, R, sts, mags, 0, site, coords)
-    check_stored(ctx, obj, R, sts, mags, 0, site, coords)
-    check_stats(ctx, obj, R, sts, mags, 0, coords)
+    check_roundtrip(ctx, obj, R, sts, mags, 0, site, coords, roweps=roweps)
+    check_stored(ctx, obj, R, sts, mags, 0, site, coords, prec=prec)
+    check_stats(ctx, obj, R, sts, mags, 0, coords, prec=prec)
     # the summaries must not have disturbed the object
     un = numpy.asarray(obj.unscale(), dtype=float)
-    mok, vok, _, first = O.compare_matrix(un, R, mags, 0)
+    mok, vok, _, first = O.compare_matrix(un, R, mags, 0, roweps)
     ctx.check("C15.roundtrip", mok and vok, site, "unscale() == raw after the summaries were taken", "any",
               witness={"raw": R, "unscaled": un, "first_bad": first}, coords=coords)
 
@@ -416,22 +425,61 @@ def _case_ops(ctx, c):
     t = int(g.integers(1, 5))
     NU = 80
     U, ccs = gen_matrix(g, NU, t)
+    # source array type of every taxon of the universe: 'd' float64 (documented), 'f' float32, 'i' int64 (both accepted by
+    # from_numpy / adjoin / insert without complaint).  The ground truth of a taxon is the value its own source array holds.
+    mixed = g.random() < 0.30
+    src = numpy.array(["d"] * NU)
+    if mixed:
+        src = g.choice(numpy.array(["d", "f", "i"]), NU, p=[0.45, 0.35, 0.20])
+        fm = src == "f"; im = src == "i"
+        U[fm] = U[fm].astype("float32").astype("float64")
+        U[im] = numpy.round(numpy.clip(numpy.nan_to_num(U[im], nan=7.0), -1e12, 1e12))
+    byclass = {k_: [int(i) for i in numpy.flatnonzero(src == k_)] for k_ in "dfi"}
     sts_u, mags = col_stats(U)       # magnitudes over the universe bound every location that can occur
     n0 = min(rand_n(g), 40)
-    ids = [int(x) for x in g.choice(NU, n0, replace=False)]
+    if mixed and g.random() < 0.6:   # initial matrix built from one source type (e.g. a float32 table)
+        pool = byclass[str(g.choice([k_ for k_ in "dfi" if byclass[k_]]))]
+        ids = [int(x) for x in g.choice(pool, min(n0, len(pool)), replace=False)]
+    else:
+        ids = [int(x) for x in g.choice(NU, n0, replace=False)]
     nops = int(g.integers(1, 11))
+    withcopies = g.random() < 0.40
     coords = [c, "ops"]
-    ctx.case("ops:" + worst_class(ccs), U, ids, nops, cls.__name__)
+    ctx.case("ops:" + worst_class(ccs) + ("/mixed float64-float32-int64 sources" if mixed else ""), U, ids, nops, cls.__name__, withcopies)
     ctx.hook("class:" + cls.__name__)
     tr = traits(t)
 
+    def rawarr(idl):
+        """The raw values of these taxa as the array a user would hold: single type when all come from one source type."""
+        kinds = set(src[idl].tolist())
+        if kinds == {"f"}:
+            ctx.sumnote("float32 arrays handed to the library"); return U[idl].astype("float32")
+        if kinds == {"i"}:
+            ctx.sumnote("int64 arrays handed to the library"); return U[idl].astype("int64")
+        return U[idl].copy()
+
+    def reps(idl):
+        return numpy.where(src[idl] == "f", O.EPS32, O.EPS)[:, None]
+
+    def prec_of(idl):
+        return O.PREC32 if len(idl) and bool(numpy.any(src[idl] == "f")) else 1.0
+
+    def pcls(*idls):
+        kinds = set()
+        for l in idls:
+            kinds |= {"f" if x == "f" else "d" for x in src[l].tolist()}
+        return "" if kinds <= {"d"} else ("/float32 sources" if kinds == {"f"} else "/float32 and float64 sources")
+
     def mk(idl):
-        return cls.from_numpy(U[idl].copy(), trait=tr, **labels(idl))
+        return cls.from_numpy(rawarr(idl), trait=tr, **labels(idl))
 
     def donor(maxk=6):
         if g.random() < 0.08:
             return None  # self-donation
         k = int(g.integers(1, maxk + 1))
+        if mixed and g.random() < 0.7:   # donor from a single source type
+            pool = byclass[str(g.choice([k_ for k_ in "dfi" if byclass[k_]]))]
+            return [int(x) for x in g.choice(pool, k)]
         return [int(x) for x in g.integers(0, NU, k)]
 
     site0 = site_of(cls, "from_numpy")
@@ -446,7 +494,29 @@ def _case_ops(ctx, c):
         """A freshly built matrix (initial object, donor) must itself round-trip; if not, that is from_numpy's finding
         (reported once there) and the history stops instead of blaming every operation that consumes the object."""
         R0 = U[idl]; s0, _ = col_stats(R0)
-        return check_roundtrip(ctx, o, R0, s0, mags, 0, site0, coords)
+        return check_roundtrip(ctx, o, R0, s0, mags, 0, site0, coords, roweps=reps(idl))
+
+    kept = []   # earlier copies of the live matrix: {"obj", "ids", "kind", "tag"}; an operation on one object must never change another
+
+    def rejudge(site_, k_):
+        for e in list(kept):
+            Rk = U[e["ids"]]
+            try:
+                unk = numpy.asarray(e["obj"].unscale(), dtype=float)
+                mk_, vk_, _, fk = O.compare_matrix(unk, Rk, mags, k_, reps(e["ids"]))
+            except Exception:
+                mk_ = vk_ = False; fk = None; unk = None
+            okk = ctx.check("C15.ops", mk_ and vk_, site_, "operation leaves other matrices (earlier copies) unchanged", "earlier " + e["kind"],
+                            what=None if (mk_ and vk_) else "C15.ops: after %s on one matrix an %s of it no longer reproduces the raw values "
+                            "of its own taxa" % (site_, "earlier " + e["kind"]),
+                            witness=None if (mk_ and vk_) else {"history": list(hist), "copy_taxa": e["ids"], "raw": Rk, "unscaled": unk,
+                                                                "first_bad": fk, "location": e["obj"].location, "scale": e["obj"].scale},
+                            coords=coords)
+            if not okk:
+                kept.remove(e)
+                continue
+            sk, _ = col_stats(Rk)
+            check_stats(ctx, e["obj"], Rk, sk, mags, k_, coords, e["tag"], prec_of(e["ids"]))
 
     if not sound(b, ids):
         return
@@ -456,6 +526,25 @@ def _case_ops(ctx, c):
     for step in range(nops):
         n = len(ids)
         k = step + 1
+        if withcopies and len(kept) < 2 and g.random() < 0.30:
+            import copy as _copy
+            kind = ["shallow copy", "shallow copy", "deep copy"][int(g.integers(3))]
+            how = int(g.integers(2))
+            meth = "__copy__" if kind == "shallow copy" else "__deepcopy__"
+            try:
+                if kind == "shallow copy":
+                    cp = _copy.copy(b) if how else b.copy()
+                else:
+                    cp = _copy.deepcopy(b) if how else b.deepcopy()
+            except Exception as e:
+                ctx.raised(meth, e); cp = None
+            if cp is not None:
+                ctx.hook("copy:" + kind)
+                hist.append("%s of the live matrix (%s)" % (kind, ["method", "copy module"][how]))
+                kept.append({"obj": cp, "ids": list(ids), "kind": kind, "tag": tag})
+                rejudge(site_of(cls, meth), k)     # the copy itself carries the raw values of its taxa
+                if kept and kept[-1]["obj"] is cp and g.random() < 0.5:
+                    kept[-1]["obj"], b = b, cp     # continue the history on the copy, keep the original
         weights = numpy.array([3, 3 if n > 1 else 0, 3, 3, 3, 3, 3, 3 if n > 1 else 0, 1, 1, 1], dtype=float)
         if n > 60:
             weights[[2, 3, 4, 5, 6]] = 0.2
@@ -479,8 +568,8 @@ def _case_ops(ctx, c):
             exp = [ids[i] for i in idx]; desc = "select_taxa(%s)" % idx
             call = (lambda: b.select(arg, axis=0)) if generic else (lambda: b.select_taxa(arg))
         elif op in ("delete_taxa", "remove_taxa"):
-            obj, kept, txt = positions(g, n)
-            exp = [ids[p] for p in kept]; desc = "%s(%s)" % (op, txt)
+            obj, keep_pos, txt = positions(g, n)
+            exp = [ids[p] for p in keep_pos]; desc = "%s(%s)" % (op, txt)
             if op == "delete_taxa":
                 call = (lambda: b.delete(obj, axis=0)) if generic else (lambda: b.delete_taxa(obj))
             else:
@@ -496,7 +585,7 @@ def _case_ops(ctx, c):
             kw = {}
             vals = dobj
             if raw_form:
-                vals = U[dids].copy(); kw = labels(dids)
+                vals = rawarr(dids); kw = labels(dids)
             if op in ("insert_taxa", "incorp_taxa"):
                 if g.random() < 0.75:
                     pos = int(g.integers(0, n + 1)); ptxt = str(pos)
@@ -540,6 +629,7 @@ def _case_ops(ctx, c):
             call = (lambda: b.group(axis=0)) if generic else (lambda: b.group_taxa())
         if generic:
             desc = desc.replace(op, gname + "[axis=0]", 1)
+        vform += pcls(ids, exp)
         hist.append(desc)
         ctx.hook("op:" + op)
         site = site_of(cls, op)
@@ -552,12 +642,13 @@ def _case_ops(ctx, c):
             ctx.raised(op + ("[generic]" if generic else ""), e)
             try:
                 un = numpy.asarray(b.unscale(), dtype=float)
-                mok, vok, _, first = O.compare_matrix(un, R_before, mags, k)
+                mok, vok, _, first = O.compare_matrix(un, R_before, mags, k, reps(ids))
             except Exception:
                 mok = vok = False; first = None; un = None
             if not (mok and vok):
                 ctx.violation("C15.ops", site, "object intact after an operation that raised", vform,
                               witness={"history": hist, "raw": R_before, "unscaled": un, "first_bad": first}, coords=coords)
+            rejudge(site, k)
             continue
         obj = b if inplace else res
         if inplace and res is not None:
@@ -585,13 +676,15 @@ def _case_ops(ctx, c):
             ctx.check("C15.ops", False, site, "unscale() of the result raised %s" % type(e).__name__, vform,
                       witness=dict(w0, error=str(e)[:200]), coords=coords)
             return
-        mok, vok, worst, first = O.compare_matrix(un, R, mags, k)
+        mok, vok, worst, first = O.compare_matrix(un, R, mags, k, reps(lids))
         if mok and vok:
             ctx.maxnote("ops round trip |err|/tol", worst)
         w = None
         if not (mok and vok):
             i, j = first if first else (0, 0)
-            w = dict(w0, taxa=lids, first_bad={"row": i, "trait": j, "taxon": lids[i] if i < len(lids) else None},
+            w = dict(w0, taxa=lids, first_bad={"row": i, "trait": j, "taxon": lids[i] if i < len(lids) else None,
+                                               "source_array_type": {"d": "float64", "f": "float32", "i": "int64"}[str(src[lids[i]])] if i < len(lids) else None},
+                     source_types="".join(src[lids].tolist()), result_dtype=str(getattr(obj.mat, "dtype", None)),
                      raw_row=R[i] if R.size else None, unscaled_row=un[i] if un.ndim == 2 and un.shape[0] > i else None,
                      location=obj.location, scale=obj.scale)
         good = ctx.check("C15.ops", mok and vok, site, "every retained taxon keeps its raw values, missing stays missing", vform,
@@ -601,11 +694,12 @@ def _case_ops(ctx, c):
             # the source of a non-mutating operation is still what it was
             try:
                 un0 = numpy.asarray(b.unscale(), dtype=float)
-                m0, v0, _, f0 = O.compare_matrix(un0, R_before, mags, k)
+                m0, v0, _, f0 = O.compare_matrix(un0, R_before, mags, k, reps(ids))
             except Exception:
                 m0 = v0 = False; f0 = None
             ctx.check("C15.ops", m0 and v0, site, "source matrix unchanged by a non-mutating operation", vform,
                       witness=dict(w0, first_bad=f0), coords=coords)
+        rejudge(site, k)
         if not good:
             return  # later states descend from a corrupted object: judging them would only multiply the same finding
         if op in ("append_taxa", "incorp_taxa", "remove_taxa"):
@@ -615,8 +709,8 @@ def _case_ops(ctx, c):
         sts, _ = col_stats(R)
         if not inplace:
             # a result built by the standardising constructor is that constructor's responsibility
-            check_stored(ctx, obj, R, sts, mags, k, site0 if _FN[0] > fn0 else site, coords, derived=True)
-        check_stats(ctx, obj, R, sts, mags, k, coords, tag)
+            check_stored(ctx, obj, R, sts, mags, k, site0 if _FN[0] > fn0 else site, coords, derived=True, prec=prec_of(lids))
+        check_stats(ctx, obj, R, sts, mags, k, coords, tag, prec_of(lids))
         b, ids = obj, lids
 
 
